@@ -17,6 +17,7 @@ bug-compatible, of the string surgery in
   * `expressions/binary.py`      `BinaryExpression.rebuild`, `_resolve_right_operand`, `_rebuild_operand`,
     `_ensure_indent` (not `_format_chained_binary`: `//` / `++` with the operator on its own line are outside
     `Cst.modelled`)
+  * `expressions/if_expression.py` `IfExpression.rebuild`, `expressions/has_attr.py` `HasAttrExpression.rebuild`
   * `expressions/function/definition.py` `FunctionDefinition.rebuild` (identifier argument: `_render_output`,
     `_format_colon_split`)
   * `expressions/with_statement.py` `WithStatement.rebuild`, `expressions/assertion.py` `Assertion.rebuild`
@@ -24,6 +25,9 @@ bug-compatible, of the string surgery in
     applies to a copy is left out — `from_cst` never writes these fields, they are `[]` on everything
     it builds, `Lemmas/FragParse.lean: cst_parse_spec` —; `Assertion.between` is written into the body
     by `asrtFromCst`)
+
+(`IfExpression` / `HasAttrExpression`: no deviation; the three / two sub-expressions are rendered inline or on their own
+line at the indentation read from the gap, the interstitial comments by `format_interstitial_trivia_with_separator`.)
 
 `NixList.multiline` is a `Bool`: `from_cst` always sets it, so `_auto_multiline` returns it (the
 inference branch is reachable only for lists built programmatically). `has_scope()` is false for
@@ -269,6 +273,36 @@ def binCore (leftStr rightOwn rightInl op : Text) (ogl rgl indent : Nat) : Text 
   else if rgl != 0 then leftStr ++ [' '] ++ op ++ List.replicate rgl '\n' ++ rightOwn
   else leftStr ++ [' '] ++ op ++ [' '] ++ rightInl
 
+/-- `IfExpression.rebuild: layout_without_blank_line(layout_from_gap(gap), has_comments=…)` -/
+def iteLayout (gap : Text) (hasComments : Bool) : Layout :=
+  let l := Layout.fromGap gap
+  if hasComments then { l with blankLine := false } else l
+
+/-- `render_branch`: the separator between `then` / `else` and the branch -/
+def branchSep (l : Layout) : Text :=
+  if l.onNewline then (if l.blankLine then ['\n', '\n'] else ['\n']) else [' ']
+
+/-- `has_then_comments` / `has_else_comments` -/
+def branchHasComments (inl : List Comment) (branchBefore : List Trivia) : Bool :=
+  !inl.isEmpty || branchBefore.any Trivia.isComment
+
+/-- the text between `if` and the condition (`condStr`: the rendered condition) -/
+def iteCondPrefix (aic : List Trivia) (aiGap : Text) (condIndent : Nat) (condStr : Text) : Text :=
+  let r := formatInterstitialTriviaWithSeparator aic (iteLayout aiGap (!aic.isEmpty)) condIndent (inlineNL := true)
+    (includeIndent := false) (dropBlankIfItems := false) (stripLeadingNLAfter := some condStr)
+  r.1 ++ r.2
+
+/-- the text between the condition and `then` / between the consequence and `else` (`prevStr`: the text
+    rendered in front of it) -/
+def iteKwPrefix (cs : List Trivia) (gap : Text) (indent : Nat) (prevStr : Text) : Text :=
+  let r := formatInterstitialTriviaWithSeparator cs (iteLayout gap (!cs.isEmpty)) indent (inlineNL := true)
+    (dropBlankIfItems := false) (stripLeadingNLAfter := some prevStr)
+  r.1 ++ r.2
+
+def kwIf : Text := ['i', 'f']
+def kwThen : Text := ['t', 'h', 'e', 'n']
+def kwElse : Text := ['e', 'l', 's', 'e']
+
 def kwWith : Text := ['w', 'i', 't', 'h']
 def kwAssert : Text := ['a', 's', 's', 'e', 'r', 't']
 
@@ -407,6 +441,29 @@ def Expr.rebuildA : Expr → Bool → Nat → Bool → Text
     let rightOwn := right.rebuildA false rightIndent (right.before.isEmpty)
     let rightOwn := spaces (ensureIndentPad rightOwn rightIndent) ++ rightOwn
     addTrivia before after (binCore leftStr rightOwn (right.rebuildA false indent true) op ogl rgl indent) indent inline
+  | .ite cond thn els condGap aic aiGap btc btGap atc thenGap bec beGap aec elseGap before after, noAfter, indent, inline =>
+    let after := if noAfter then [] else after
+    let cl := Layout.fromGap condGap
+    let tl := iteLayout thenGap (branchHasComments atc thn.before)
+    let el := iteLayout elseGap (branchHasComments aec els.before)
+    let condStr :=
+      if cl.onNewline then cond.rebuildA false (cl.indent.getD indent) false else cond.rebuildA false indent true
+    let thenStr :=
+      if tl.onNewline then thn.rebuildA false (tl.indent.getD indent) false else thn.rebuildA false indent true
+    let elseStr :=
+      if el.onNewline then els.rebuildA false (el.indent.getD indent) false else els.rebuildA false indent true
+    addTrivia before after
+      (kwIf ++ iteCondPrefix aic aiGap (if cl.onNewline then cl.indent.getD indent else indent) condStr ++ condStr ++
+        iteKwPrefix btc btGap indent condStr ++ kwThen ++ formatInlineCommentSuffix atc ++ branchSep tl ++ thenStr ++
+        iteKwPrefix bec beGap indent thenStr ++ kwElse ++ formatInlineCommentSuffix aec ++ branchSep el ++ elseStr)
+      indent inline
+  | .has expr attrs leftGap rightGap bqc aqc before after, noAfter, indent, inline =>
+    let after := if noAfter then [] else after
+    -- (`left_layout` / `right_layout` are computed like the layout in front of the operand of a unary operator)
+    let r1 := formatInterstitialTriviaWithSeparator bqc (unLayout bqc leftGap) indent (dropBlankIfItems := false)
+    let r2 := formatInterstitialTriviaWithSeparator aqc (unLayout aqc rightGap) indent (dropBlankIfItems := false)
+    addTrivia before after
+      (expr.rebuildA false indent true ++ r1.1 ++ r1.2 ++ ['?'] ++ r2.1 ++ r2.2 ++ attrText attrs) indent inline
 /-- `[item.rebuild(indent, inline) for item in items]` -/
 def rebuildAll : List Expr → Nat → Bool → List Text
   | [], _, _ => []
@@ -730,6 +787,31 @@ def Expr.rebuildAP : Expr → Bool → Nat → Bool → List FP
     let rightOwn := right.rebuildAP false rightIndent (right.before.isEmpty)
     let rightOwn := .ws (spaces (ensureIndentPad (concat rightOwn) rightIndent)) :: rightOwn
     addTriviaP before after (binCoreP leftP rightOwn (right.rebuildAP false indent true) op ogl rgl indent) indent inline
+  -- (interstitial comments are written as one whitespace piece with the separator, as for `with`)
+  | .ite cond thn els condGap aic aiGap btc btGap atc thenGap bec beGap aec elseGap before after, noAfter, indent, inline =>
+    let after := if noAfter then [] else after
+    let cl := Layout.fromGap condGap
+    let tl := iteLayout thenGap (branchHasComments atc thn.before)
+    let el := iteLayout elseGap (branchHasComments aec els.before)
+    let condP :=
+      if cl.onNewline then cond.rebuildAP false (cl.indent.getD indent) false else cond.rebuildAP false indent true
+    let thenP :=
+      if tl.onNewline then thn.rebuildAP false (tl.indent.getD indent) false else thn.rebuildAP false indent true
+    let elseP :=
+      if el.onNewline then els.rebuildAP false (el.indent.getD indent) false else els.rebuildAP false indent true
+    addTriviaP before after
+      ([.tok kwIf, .ws (iteCondPrefix aic aiGap (if cl.onNewline then cl.indent.getD indent else indent) (concat condP))] ++
+        condP ++ [.ws (iteKwPrefix btc btGap indent (concat condP)), .tok kwThen,
+          .ws (formatInlineCommentSuffix atc ++ branchSep tl)] ++ thenP ++
+        [.ws (iteKwPrefix bec beGap indent (concat thenP)), .tok kwElse,
+          .ws (formatInlineCommentSuffix aec ++ branchSep el)] ++ elseP)
+      indent inline
+  | .has expr attrs leftGap rightGap bqc aqc before after, noAfter, indent, inline =>
+    let after := if noAfter then [] else after
+    let r1 := formatInterstitialTriviaWithSeparator bqc (unLayout bqc leftGap) indent (dropBlankIfItems := false)
+    let r2 := formatInterstitialTriviaWithSeparator aqc (unLayout aqc rightGap) indent (dropBlankIfItems := false)
+    addTriviaP before after
+      (expr.rebuildAP false indent true ++ [.ws (r1.1 ++ r1.2), .tok ['?'], .ws (r2.1 ++ r2.2)] ++ attrP attrs) indent inline
 def rebuildAllP : List Expr → Nat → Bool → List (List FP)
   | [], _, _ => []
   | e :: rest, indent, inline => e.rebuildAP false indent inline :: rebuildAllP rest indent inline
